@@ -183,6 +183,7 @@ def verify_modules(modnames, tier='quick', prop=None, only=None):
     reg = Registry(modnames, prog)
     timeout = QUICK_TIMEOUT_MS if tier == 'quick' else THOROUGH_TIMEOUT_MS
     jobs, obl_meta, functions, errors, outside = [], {}, [], [], []
+    outside_detail = []
     cover_jobs = []
     assumptions = list(reg.assumptions)
     for m in reg.top:
@@ -200,6 +201,10 @@ def verify_modules(modnames, tier='quick', prop=None, only=None):
                 obls = ex.run()
             except OutsideSubset as e:
                 outside.append('%s: outside the verified subset: %s' % (qual, e))
+                try:
+                    outside_detail.append((qual, prog.source_hash(qual) if ct.kind != 'lemma' else None))
+                except Exception:
+                    outside_detail.append((qual, None))
                 if os.environ.get('PYVC_TRACE'):
                     traceback.print_exc()
                 continue
@@ -253,6 +258,7 @@ def verify_modules(modnames, tier='quick', prop=None, only=None):
             first = keep + second
         if True:
             cov = collections.defaultdict(list)
+            vacuous = []
             for r in first:
                 if '::cover[' in r['name']:
                     cov[r['name']].append(r['status'])
@@ -263,7 +269,7 @@ def verify_modules(modnames, tier='quick', prop=None, only=None):
                 vac = all(x == 'unsat' for x in sts)
                 covers.append(dict(name=cname, status='VACUOUS' if vac else 'satisfiable' if 'sat' in sts else 'not refuted (solver: unknown)'))
                 if vac:
-                    errors.append('%s: hypotheses unsatisfiable on every path, the proof would be vacuous' % cname)
+                    vacuous.append(cname)
     obligations = []
     for name, meta in obl_meta.items():
         rs = results.get(name, [])
@@ -292,7 +298,13 @@ def verify_modules(modnames, tier='quick', prop=None, only=None):
         meta.update(status=st, model=model, solver_output=so, backend='+'.join(sorted(backends)), time_s=t,
                     per_query=sorted((r['idx'], r['status'], round(r['time_s'], 2)) for r in rs))
         obligations.append(meta)
-    return dict(obligations=obligations, functions=functions, errors=errors, outside_subset=outside, assumptions=assumptions,
+    for cname in (vacuous if (jobs or cover_jobs) else []):
+        # only a function that would otherwise count as proved is an error: when an obligation of it has failed already (e.g. the
+        # invariant does not hold initially) the contradiction is that failure seen from the inside
+        fn = cname.split('::cover[')[0]
+        if all(o['status'] == 'discharged' for o in obligations if o['function'] == fn):
+            errors.append('%s: hypotheses unsatisfiable on every path, the proof would be vacuous' % cname)
+    return dict(outside_detail=outside_detail, obligations=obligations, functions=functions, errors=errors, outside_subset=outside, assumptions=assumptions,
                 covers=sorted(covers, key=lambda c: c['name']))
 
 
